@@ -158,30 +158,81 @@ def atom_ids(nodes):
     return [n[1] for n in nodes if n[0] == "atom" and n[2] is None]
 
 
-def evaluator(nodes, assign):
-    """value of a key (None / 0 / +-k) of an ACYCLIC dumped formula under `assign`
-    (identifier_repr -> bool); deterministic atoms have their fixed value."""
-    memo = {}
+class Unsupported(Exception):
+    """negation through a cycle: no least-model reading"""
 
-    def node(k):
-        if k in memo:
-            return memo[k]
-        n = nodes[k - 1]
-        if n[0] == "atom":
-            v = n[2] if n[2] is not None else assign[n[1]]
-        elif n[0] == "conj":
-            v = all(lit(c) for c in n[1])
-        else:
-            v = any(lit(c) for c in n[1])
-        memo[k] = v
-        return v
+
+def sccs(nodes):
+    """strongly connected components of the child relation, children first (Tarjan)"""
+    index, low, on, stack, out, cnt = {}, {}, set(), [], [], [0]
+
+    def visit(v):
+        index[v] = low[v] = cnt[0]
+        cnt[0] += 1
+        stack.append(v)
+        on.add(v)
+        n = nodes[v - 1]
+        if n[0] != "atom":
+            for c in n[1]:
+                if c is None or c == 0:
+                    continue
+                w = abs(c)
+                if w not in index:
+                    visit(w)
+                    low[v] = min(low[v], low[w])
+                elif w in on:
+                    low[v] = min(low[v], index[w])
+        if low[v] == index[v]:
+            comp = []
+            while True:
+                w = stack.pop()
+                on.discard(w)
+                comp.append(w)
+                if w == v:
+                    break
+            out.append(comp)
+    for k in range(1, len(nodes) + 1):
+        if k not in index:
+            visit(k)
+    return out
+
+
+def evaluator(nodes, assign):
+    """value of a key (None / 0 / +-k) of a dumped formula under `assign` (identifier_repr -> bool);
+    deterministic atoms have their fixed value.  Cyclic formulas: least model, component by component
+    (Kleene iteration inside a component); a negative edge inside a component raises Unsupported.
+    On acyclic formulas this is the plain bottom-up value."""
+    val = {}
 
     def lit(c):
         if c is None:
             return False
         if c == 0:
             return True
-        return node(c) if c > 0 else not node(-c)
+        return val[c] if c > 0 else not val[-c]
+
+    def step(k):
+        n = nodes[k - 1]
+        if n[0] == "atom":
+            return n[2] if n[2] is not None else assign[n[1]]
+        if n[0] == "conj":
+            return all(lit(c) for c in n[1])
+        return any(lit(c) for c in n[1])
+
+    for comp in sccs(nodes):
+        cs = set(comp)
+        for k in comp:
+            n = nodes[k - 1]
+            if n[0] != "atom" and any(c is not None and c < 0 and -c in cs for c in n[1]):
+                raise Unsupported()
+            val[k] = False
+        changed = True
+        while changed:
+            changed = False
+            for k in comp:
+                if not val[k] and step(k):
+                    val[k] = True
+                    changed = True
     return lit
 
 
@@ -258,6 +309,23 @@ def gen_relational_program(rng):
         lines.append("s(a). s(b).")
         lines.append("q(S,L) :- s(S), %s(Y, p(S,Y), L)." % kind)
         lines.append("query(q(_,_)).")
+    return "\n".join(lines), kind
+
+
+def gen_cyclic_program(rng):
+    """Recursive goal over a small digraph WITH cycles (probabilistic edges): the findall_target is a
+    cyclic formula, enumerate_branches relies on its cycle guard."""
+    names = ["a", "b", "c"]
+    pairs = [(x, y) for x in names for y in names if x != y]
+    edges = rng.sample(pairs, rng.randint(2, 4))
+    lines = ["0.%d::e(%s,%s)." % (rng.randint(1, 9), x, y) for x, y in edges]
+    if rng.random() < 0.5:
+        lines += ["r(X) :- e(a,X).", "r(X) :- r(Y), e(Y,X)."]
+    else:
+        lines += ["r(X) :- e(a,X).", "r(X) :- e(Y,X), r(Y)."]
+    kind = rng.choice(["findall", "findall", "findall", "all"])
+    lines.append("q(L) :- %s(X, r(X), L)." % kind)
+    lines.append("query(q(_)).")
     return "\n".join(lines), kind
 
 
